@@ -821,6 +821,8 @@ func (in *Interp) eval(e Expr, sc *scope, fr *frame) (Value, *ctl) {
 		return NullV{}, nil
 	case *Str:
 		return v.V, nil
+	case *RawStr:
+		return v.Val, nil
 	case *Grp:
 		return in.eval(v.E, sc, fr)
 	case *Var:
